@@ -76,21 +76,31 @@ def mapMOpt {β γ : Type} (f : β → Except CsvErr γ) : List β → Except Cs
       | .error e => .error e
       | .ok ys => .ok (y :: ys)
 
+/-- one input cell of a record, by column index -/
+def parseCell (r : List String) (kc : String × Nat) : Except CsvErr (String × Bool) :=
+  match r[kc.2]? with
+  | none => .error .recordDifferentSize
+  | some cell => match stringToBool cell with
+    | none => .error .nonBooleanCell
+    | some b => .ok (kc.1, b)
+
+/-- `parse_output_column` -/
+def parseOutput (r : List String) : Except CsvErr Bool :=
+  match r.getLast? with
+  | none => .error .noOutputColumn
+  | some o => match stringToBool o with
+    | none => .error .nonBooleanCell
+    | some b => .ok b
+
 /-- one data record → (row index, output) -/
 def parseRecord (firstLen : Nat) (cols : List (String × Nat)) (r : List String) : Except CsvErr (Nat × Bool) :=
   if r.length ≠ firstLen then .error .unequalLengths
-  else match mapMOpt (fun (kc : String × Nat) => match r[kc.2]? with
-      | none => Except.error CsvErr.recordDifferentSize
-      | some cell => match stringToBool cell with
-        | none => .error .nonBooleanCell
-        | some b => .ok (kc.1, b)) cols with
+  else match mapMOpt (parseCell r) cols with
     | .error e => .error e
     | .ok valuation =>
-      match r.getLast? with
-      | none => .error .noOutputColumn
-      | some o => match stringToBool o with
-        | none => .error .nonBooleanCell
-        | some b => .ok (valuesToRowIndex (cols.map (·.1)) valuation false, b)
+      match parseOutput r with
+      | .error e => .error e
+      | .ok b => .ok (valuesToRowIndex (cols.map (·.1)) valuation false, b)
 
 /-- the loop writing the outputs, with the duplicate-row check -/
 def fillRows : List (Nat × Bool) → List Bool → List Bool → Except CsvErr (List Bool)
@@ -101,32 +111,40 @@ def fillRows : List (Nat × Bool) → List Bool → List Bool → Except CsvErr 
     if filled.getD i false then .error .duplicateRow
     else fillRows rest (outs.set i b) (filled.set i true)
 
+/-- `is_header`: the last cell of the first record is not a Boolean spelling -/
+def isHeaderRec (first : List String) : Bool := !(isBoolString (first.getLast?.getD ""))
+/-- the variable names: the header cells (`inputs_from_header`), or `x_i` (`inputs_from_first_record`) -/
+def namesOf (first : List String) : List String :=
+  if isHeaderRec first then first.dropLast else (List.range (first.length - 1)).map fun i => s!"x_{i}"
+/-- `BTreeMap` name → column index -/
+def colsOf (first : List String) : List (String × Nat) := sortByName (namesOf first).zipIdx
+/-- the records that carry data (after the `fix:` the first record is one of them when there is no header) -/
+def dataRecsOf (first : List String) (rest : List (List String)) : List (List String) :=
+  if isHeaderRec first then rest else first :: rest
+
+/-- the record count `ensure_record_count` compares with `2^n` -/
+def actualCount (count : Nat) (isHeader : Bool) : Nat := if isHeader then count - 1 else count
+
+/-- the part of `from_csv_common` after the variables are determined -/
+def importWith (count : Nat) (isHeader : Bool) (cols : List (String × Nat)) (firstLen : Nat)
+    (dataRecs : List (List String)) : Except CsvErr (Table String) :=
+  if cols.length ≥ 64 then .error .tooManyVariables
+  else if actualCount count isHeader ≠ 2 ^ cols.length then .error .mismatchedCount
+  else match mapMOpt (parseRecord firstLen cols) dataRecs with
+    | .error e => .error e
+    | .ok rows =>
+      match fillRows rows (List.replicate (2 ^ cols.length) false) (List.replicate (2 ^ cols.length) false) with
+      | .error e => .error e
+      | .ok outs => .ok ⟨cols.map (·.1), outs⟩
+
 /-- `from_csv_common(file_row_count, reader)` -/
 def fromCsvCommon (count : Nat) (recs : List (List String)) : Except CsvErr (Table String) :=
   match recs with
   | [] => .error .unexpectedEof
   | first :: rest =>
-    match first.getLast? with
-    | none => .error .noOutputColumn
-    | some lastCell =>
-      let isHeader := !(isBoolString lastCell)
-      let names : List String :=
-        if isHeader then first.dropLast else (List.range (first.length - 1)).map fun i => s!"x_{i}"
-      if isHeader && hasDup names then .error .duplicateVariableName
-      else
-        let cols := sortByName (names.zipIdx)
-        let n := cols.length
-        let actual := if isHeader then count - 1 else count
-        if n ≥ 64 then .error .tooManyVariables
-        else if actual ≠ 2 ^ n then .error .mismatchedCount
-        else
-          let dataRecs := if isHeader then rest else first :: rest
-          match mapMOpt (parseRecord first.length cols) dataRecs with
-          | .error e => .error e
-          | .ok rows =>
-            match fillRows rows (List.replicate (2 ^ n) false) (List.replicate (2 ^ n) false) with
-            | .error e => .error e
-            | .ok outs => .ok ⟨cols.map (·.1), outs⟩
+    if first.isEmpty then .error .noOutputColumn
+    else if isHeaderRec first && hasDup (namesOf first) then .error .duplicateVariableName
+    else importWith count (isHeaderRec first) (colsOf first) first.length (dataRecsOf first rest)
 
 /-- `from_csv_string` (and, after the `fix:`, `from_csv_file` on a file with these contents) -/
 def fromCsvString (s : String) : Except CsvErr (Table String) :=
